@@ -86,3 +86,8 @@ Example C06_example :
   fst (replicate 10 (fun c r => (simple_query (fun _ _ _ => 2%nat) l r 100, c)) {| buf := []; csize := 0 |} 5 3) =
     [MCommands 5 [(RCmd 30, 3); (RDummy, 4)]; MCommands 5 [(RCmd 50, 5)]; MUpToDate 5].
 Proof. split; [repeat split|vm_compute; reflexivity]. Qed.
+
+(* every remaining property theorem of this file *)
+Print Assumptions C06_size_cut_prefix.
+Print Assumptions C06_leader_behind.
+Print Assumptions C06_cache_initially_ok.
